@@ -201,3 +201,5 @@ package percolator
 //@   requires r != nil
 //@   ensures [value-comes-from-the-selected-data-record] result1 == nil ==> readSelections == old(readSelections) + 1 && lastSelectedFound && lastSelectedKind != 1 && lastSelectedKind != 2 && lastSelectedKind != 3 && defaultReads == old(defaultReads) + 1 && lastDefaultReadTs == lastSelectedStartTs
 //@   ensures [selected-delete-or-nothing-is-not-found] readSelections == old(readSelections) + 1 && (!lastSelectedFound || lastSelectedKind == 1) ==> result1 != nil && defaultReads == old(defaultReads)
+//@   ensures [one-selection] readSelections == old(readSelections) + 1
+//@   modifies ghost(readSelections), ghost(lastSelectedFound), ghost(lastSelectedKind), ghost(lastSelectedStartTs), ghost(defaultReads), ghost(lastDefaultReadTs)
